@@ -110,6 +110,9 @@ structure NamePost (inc : Bool) (st st' : BlkSt) : Prop where
 theorem blkName_inv (cfg : Cfg) (inc : Bool) (st : BlkSt) (name : Bytes) (h : BlkInv cfg st) :
     StepGood (fun st' => BlkInvG 1 cfg st' ∧ NamePost inc st st') (blkName inc st name) := by
   unfold blkName
+  split
+  · rw [stepGood_inr]; show ("NUL byte in sequence name" : String) ≠ ""; decide
+  unfold blkNameCore
   by_cases hb : st.nblocks = 0
   · have hb' : (st.nblocks == 0) = true := by simp [hb]
     simp only [hb', if_true]
@@ -634,6 +637,9 @@ theorem clustalRead_good (like : Bool) (cfg : Cfg) (hv : cfg.valid) (lines : Lis
 
 theorem blkName_notOk (inc : Bool) (st : BlkSt) (name : Bytes) : NotOk (blkName inc st name) := by
   unfold blkName
+  split
+  · simp
+  unfold blkNameCore
   simp only
   split
   · split <;> simp
